@@ -23,6 +23,8 @@ func checkC03(p *Prog, c *Check) {
 	// the key every keyper derives is only the correct one if share i is interpolated with sender index i
 	c01Pairing(p, c, "C03-R5")
 	c03SignerRange(p, c)
+	c03Middleware(p, c)
+	c03NoDistinct(p, c)
 }
 
 func c03Send(p *Prog, c *Check) {
